@@ -35,6 +35,10 @@ def cases(tier, seed):
             out.append(dict(kind="modes", D=D, N=N, rs=[seed, 1, D, N], cost=N ** D / 20 + 1))
             out.append(dict(kind="helpers", D=D, N=N, rs=[seed, 2, D, N], cost=2))
             out.append(dict(kind="indexing", D=D, N=N, rs=[seed, 3, D, N], cost=2))
+    # every grid size of a range in 1D (cheap): float-step / parity slips that need a particular (L, N) pair cannot hide between the sampled sizes
+    top = 320 if tier == "quick" else 1100
+    for lo in range(2, top, 40):
+        out.append(dict(kind="sweep1d", lo=lo, hi=min(top, lo + 40), rs=[seed, 5, lo], cost=3))
     for D in (1, 2, 3):
         for N in Ns[D][:3]:
             out.append(dict(kind="roundtrip32", D=D, N=N, x64=False, rs=[seed, 4, D, N], cost=1))
@@ -303,8 +307,56 @@ def run_roundtrip32(case, bus, ex):
               witness=dict(D=D, N=N, dtypes=[str(uh.dtype), str(back.dtype)]))
 
 
+SWEEP_L = [1.0, 2 * np.pi, 3.0, 0.5, 5.0, 20.0, 60.0, 100.0, 0.37, 4 * np.pi]
+
+
+def run_sweep1d(case, bus, ex):
+    """All N of a range x ten box sizes in 1D: grid points are exactly j L / N (N points, right end excluded; N + 1 with full=True), wavenumbers are the
+    integers of the rfft layout, the three scaling arrays follow their formula, and one cosine of the highest regular mode is located and extracted."""
+    import jax.numpy as jnp
+    sp = ex.spectral
+    for N in range(case["lo"], case["hi"]):
+        for L in SWEEP_L:
+            for full in (False, True):
+                g = np.asarray(ex.make_grid(1, L, N, full=full))
+                bus.tap("make_grid")
+                n = N + 1 if full else N
+                ref = (np.arange(n) * (L / N))[None]
+                ok = g.shape == ref.shape
+                err = float(np.max(np.abs(g - ref))) / L if ok else np.inf
+                bus.judge("grid", err, 8 * EPS, (1, "sweep", N % 2, full, N // 64), witness=dict(D=1, N=N, L=L, full=full, shape=list(g.shape), note="1D sweep over all N"))
+        kw = np.asarray(sp.build_wavenumbers(1, N))
+        bus.tap("build_wavenumbers")
+        refk = np.arange(N // 2 + 1, dtype=float)[None]
+        okk = kw.shape == refk.shape
+        bus.judge("mode_location", float(np.max(np.abs(kw - refk))) if okk else np.inf, 64 * EPS * N, (1, "sweep wavenumbers", N % 2, N // 64), witness=dict(D=1, N=N, shape=list(kw.shape), note="integer wavenumbers of the rfft layout"))
+        for mode in ("norm_compensation", "reconstruction", "coef_extraction"):
+            got = np.asarray(sp.build_scaling_array(1, N, mode=mode))
+            bus.tap("build_scaling_array")
+            ref = ref_scaling(1, N, mode)
+            ok = got.shape == ref.shape and np.array_equal(got, ref)
+            bus.judge("scaling_arrays", 0.0 if ok else 1.0, 0.5, (1, "sweep", N % 2, mode, N // 64), witness=dict(D=1, N=N, mode=mode, nbad=int(np.sum(got != ref)) if got.shape == ref.shape else -1))
+        for cutoff in sorted({1, N // 3, N // 2 - 1, N // 2} - {-1, 0}):          # inclusive integer cutoffs
+            got = np.asarray(sp.low_pass_filter_mask(1, N, cutoff=cutoff))
+            bus.tap("low_pass_filter_mask")
+            ref = (np.arange(N // 2 + 1) <= cutoff)[None]
+            ok = got.shape == ref.shape and np.array_equal(got, ref)
+            bus.judge("masks", 0.0 if ok else 1.0, 0.5, (1, "sweep lowpass", N % 2, N // 64), witness=dict(D=1, N=N, cutoff=cutoff, kept=int(got.sum()), documented=int(ref.sum()), note="cutoff is inclusive"))
+        if N >= 3:
+            k = (N - 1) // 2                       # highest mode strictly below Nyquist
+            a, phi = 1.3, 0.4
+            x = np.arange(N) / N
+            u = (a * np.cos(2 * np.pi * k * x + phi))[None]
+            c = np.asarray(sp.get_fourier_coefficients(jnp.asarray(u), round=None))
+            bus.tap("get_fourier_coefficients")
+            want = np.zeros(N // 2 + 1, complex)
+            want[k] = a * np.exp(1j * phi)
+            okc = c.shape == (1, N // 2 + 1)
+            bus.judge("coef_extraction", float(np.max(np.abs(c[0] - want))) / a if okc else np.inf, 64 * EPS * (1 + np.log2(N)), (1, "sweep top mode", N % 2, N // 64), witness=dict(D=1, N=N, k=k, note="cosine of the highest regular mode"))
+
+
 def run_case(case, bus, ex):
-    return {"modes": run_modes, "helpers": run_helpers, "indexing": run_indexing, "roundtrip32": run_roundtrip32}[case["kind"]](case, bus, ex)
+    return {"modes": run_modes, "helpers": run_helpers, "indexing": run_indexing, "roundtrip32": run_roundtrip32, "sweep1d": run_sweep1d}[case["kind"]](case, bus, ex)
 
 
 def classify(v):
